@@ -10,9 +10,13 @@
 (*     readable),                                                          *)
 (*   - the instant a copy of a datagram reaches a host (`arrive`: the      *)
 (*     moment the statement's "bound port", "connected-peer filter" and    *)
-(*     "receive capacity" refer to; observed through turmoil's own         *)
-(*     `Delivered` event, in replays caused by the controller's            *)
-(*     SentRef::deliver + Sim::step).                                      *)
+(*     "receive capacity" refer to), taken from the public API only: a     *)
+(*     copy that travels over a link is seen in Sim::links (SentRef::pair, *)
+(*     protocol) between steps and has reached its host in the step after  *)
+(*     which it is gone, before that host runs; a copy for the sender's    *)
+(*     own host (loopback address, own address, own-host member / bound    *)
+(*     port) is handed over one tick after the send (turmoil::elapsed()    *)
+(*     of the send, send_loopback's documented delay).                     *)
 (* No bind tables, queues, link queues or loopback tasks.                  *)
 (*                                                                         *)
 (* Three-valued targeting.  For every (send, socket) the spec decides      *)
@@ -197,12 +201,27 @@ ArriveClass(id, t, p, dk) ==
          ELSE IF occLo >= Cap THEN "over"
          ELSE IF cls = "must" /\ occHi < Cap THEN "must" ELSE "may"
 
-P_Arrive(id, t, p, dk) ==
-    LET cls == ArriveClass(id, t, p, dk) IN
+\* amb = TRUE: the drivers could not order this hand-over against other events
+\* that touch the same socket (another copy handed to it in the same step, or a
+\* call on the socket at the very instant of a loopback hand-over): whatever
+\* the classification would be, the statement's conditions cannot be evaluated
+\* at a definite instant, so the datagram is optional for a socket bound there.
+\* (An ambiguous hand-over is reported at the earliest and again at the latest
+\* position it can have had; the second report re-opens the option unless the
+\* socket has received the datagram in between.)
+P_ArriveA(id, t, p, dk, amb) ==
+    LET c0  == ArriveClass(id, t, p, dk)
+        cls == IF ~amb THEN c0
+               ELSE IF c0 \in {"must", "over", "no", "may"} THEN "may"
+               ELSE IF c0 = "dup" /\ LiveAt(t, p) # {} /\ <<id, ArriveSock(t, p)>> \notin got THEN "may"
+               ELSE c0
+    IN
     /\ arrd' = arrd \cup {<<id, t, p, dk>>}
     /\ pm' = IF cls = "must" THEN [pm EXCEPT ![ArriveSock(t, p)] = @ \cup {id}] ELSE pm
     /\ py' = IF cls = "may"  THEN [py EXCEPT ![ArriveSock(t, p)] = @ \cup {id}] ELSE py
     /\ UNCHANGED <<socks, sends, rbuf, got, viol>>
+
+P_Arrive(id, t, p, dk) == P_ArriveA(id, t, p, dk, FALSE)
 
 \* recv_from (polled once) / try_recv_from with a buffer of buf bytes (>= 1) returned
 \* res = [k |-> "empty"] or [k |-> "data", len, o, data].
